@@ -7,6 +7,7 @@ require (
 	github.com/segmentio/encoding v0.3.4
 	github.com/shopspring/decimal v1.4.0
 	go.lsp.dev/protocol v0.12.0
+	go.lsp.dev/uri v0.3.0
 )
 
 require (
@@ -14,7 +15,6 @@ require (
 	github.com/segmentio/asm v1.1.3 // indirect
 	go.lsp.dev/jsonrpc2 v0.10.0 // indirect
 	go.lsp.dev/pkg v0.0.0-20210717090340-384b27a52fb2 // indirect
-	go.lsp.dev/uri v0.3.0 // indirect
 	go.uber.org/atomic v1.9.0 // indirect
 	go.uber.org/multierr v1.8.0 // indirect
 	go.uber.org/zap v1.21.0 // indirect
